@@ -213,7 +213,7 @@ type Explorer struct {
 	Executions int64
 	MaxExec    int64 // cap (0 = none); hitting it sets Capped
 	Capped     bool
-	Diverged   int64 // executions whose prefix could not be replayed (uncontrolled nondeterminism)
+	Diverged   int64                                                      // executions whose prefix could not be replayed (uncontrolled nondeterminism)
 	Run        func(choose func(i int, p *PointInfo) int) (*Result, bool) // runs one execution; false stops the exploration
 }
 
